@@ -362,10 +362,15 @@ def run(chk):
     rng = chk.rng
     n = chk.q(150, 1500)
     recs = []
-    for it in range(n):
+    # every entry of the catalogue at least once per run, and every spelling of the unit system / solver type
+    systematic = [[v] for v in sorted(VIOLATIONS)] + [["units=" + u] for u in ("Imperial", "english", "si", "Metric", "ENGLISH", "")] + \
+                 [["solver=" + t for t in (x,)] for x in ("newton", "Nonlinear", "fsolve", "scipy")]
+    for it in range(n + len(systematic)):
         sd, ac, st = base_case(rng, chk.hist)
         roll = rng.random()
-        if roll < 0.60:
+        if it < len(systematic):
+            muts = systematic[it]
+        elif roll < 0.60:
             muts = [rng.choice(sorted(VIOLATIONS))]
         elif roll < 0.75:
             muts = rng.sample(sorted(VIOLATIONS), 2)
@@ -375,7 +380,12 @@ def run(chk):
             muts = []
         try:
             for m_ in muts:
-                (VALID[m_[6:]] if m_.startswith("valid:") else VIOLATIONS[m_])(rng, sd, ac, st)
+                if m_.startswith("units="):
+                    sd["units"] = m_[6:]
+                elif m_.startswith("solver="):
+                    sd.setdefault("solver", {})["type"] = m_[7:]
+                else:
+                    (VALID[m_[6:]] if m_.startswith("valid:") else VIOLATIONS[m_])(rng, sd, ac, st)
             term = abs_scene(sd, [("a", ac, st, {})])
         except Exception as e:          # a mutation that does not apply to this base (e.g. no wing with a semispan)
             chk.count("mutation-not-applicable")
